@@ -116,7 +116,10 @@ impl InstructionGenerator {
     }
 
     fn generate_stash_by_ref_args(&mut self, args: &Expressions) {
-        for (index, Positioned { element: arg, pos }) in args.iter().enumerate() {
+        // Last argument first: the values are taken back from the end (see `generate_un_stash_by_ref_args`),
+        // so that a call inside the subscript of an argument that is being written back
+        // finds and leaves the pending values of this call untouched.
+        for (index, Positioned { element: arg, pos }) in args.iter().enumerate().rev() {
             if arg.is_by_ref() {
                 self.push(Instruction::EnqueueToReturnStack(index), *pos);
             }
